@@ -124,6 +124,7 @@ func main() {
 	cases = append(cases, damagedInputs(e)...)
 	cases = append(cases, sameFile(e)...)
 	cases = append(cases, keygenCases(e)...)
+	cases = append(cases, keygenRaceCases(e)...)
 	cases = append(cases, ptyCases(e)...)
 	cases = append(cases, terminalEnvironments(e)...)
 	cases = append(cases, terminalLargeTexts(e)...)
